@@ -31,8 +31,8 @@ OPEN_STATEMENTS = [
     'non-zero coefficient below 1e-8, monomials of more than 27 variables, is excluded); the whole transform is covered by the '
     'transform stream (Model correspondence + Spec oracle on every encoded domain state + term-for-term comparison with '
     'jordan_wigner / bravyi_kitaev)',
-    'soundness of the constructor BinaryPolynomial(list of tuples) (BinaryPolynomial(str) is proved: string_constructor_sound) and '
-    'Shaped for the built-in constructors other than through init_shaped: covered by the poly-programs / codes streams only',
+    'Shaped for the built-in constructors other than through init_shaped: covered by the codes stream only (both constructors '
+    'of BinaryPolynomial are proved: string_constructor_sound, tuple_constructor_sound)',
 ]
 TRUSTED = [
     'C09: string tokenisation of BinaryPolynomial(str) (str.split / isdigit / int) is done by the harness '
